@@ -3,8 +3,8 @@
 # usage: vtools/dev_seed_eval2.sh <ID> <worktree> <outdir> [check-id] [tier]
 id="$1"; wt="$2"; out="$3"; chk="${4:-$id}"; tier="${5:-quick}"
 echo "== diff"; git -C "$wt" diff --stat | tail -2
-echo "== demo on /repo (unchanged)"; LIB=/repo /venv/bin/python "$out/demo.py" >/tmp/sd0.txt 2>&1; echo "rc=$?"
+echo "== demo on /repo (unchanged)"; LIB=/repo /venv/bin/python "$out/demo.py" >/tmp/sd0.$id.txt 2>&1; echo "rc=$?"
 echo "== baseline in worktree"; (cd "$wt" && PYTHONPATH="$wt" /venv/bin/python -m pytest -q -p no:cacheprovider --timeout=900 --continue-on-collection-errors 2>&1 | tail -1)
-echo "== demo in worktree"; LIB="$wt" /venv/bin/python "$out/demo.py" >/tmp/sd1.txt 2>&1; echo "rc=$?"; tail -2 /tmp/sd1.txt | cut -c1-250
+echo "== demo in worktree"; LIB="$wt" /venv/bin/python "$out/demo.py" >/tmp/sd1.$id.txt 2>&1; echo "rc=$?"; tail -2 /tmp/sd1.$id.txt | cut -c1-250
 echo "== check $chk ($tier) against the worktree"
 cd /verif && VERIF_REPO="$wt" ./check "$chk" --tier "$tier" --no-evidence 2>&1 | grep -E "SUMMARY|VIOLATION|HARNESS|UNDECIDED" | head -5 | cut -c1-330
